@@ -229,3 +229,28 @@ Definition to_input (i : inputB) : input :=
 
 (* the property for handlers given by their bodies: P with "fails" read in strict mode *)
 Definition PB (i : inputB) (o : obs) : bool := P (to_input i) o.
+
+(* ====================================================================================
+   "`hook::run --config` prints the configuration" as a statement about bytes.
+
+   The configuration of a hook is what its `__config__` writes ([ic_text]: any byte string -
+   YAML that begins with `---`, JSON with escaped quotes and backslashes inside a jqFilter, `%`, no final
+   newline, ...): the operator parses the stdout of `hook --config`, so "prints the
+   configuration" means that this stdout IS that byte string - not a rendering, an
+   expansion or a normalisation of it.  `__config__` decides about success: when it fails
+   there is no configuration to print and the run must not report success (what is on
+   stdout then is not constrained). *)
+Record inputC := mkInputC {
+  ic_in   : inputB;
+  ic_text : bytes          (* what __config__ writes to its stdout *)
+}.
+
+Definition config_clause (i : inputC) (o : obsC) : bool :=
+  if is_config (ib_args (ic_in i)) && mem config_name (ib_defined (ic_in i)) then
+    if N.eqb (strict_status (ib_bodies (ic_in i) config_name 0%N)) 0
+    then bytes_eqb (oc_stdout o) (ic_text i)                       (* printed verbatim *)
+    else nonzero (o_status (ob_obs (oc_run o)))                    (* its failure is the run's *)
+  else true.
+
+Definition PC (i : inputC) (o : obsC) : bool :=
+  PB (ic_in i) (ob_obs (oc_run o)) && config_clause i o.
